@@ -113,6 +113,7 @@ func runC18(c *core.Ctx) {
 		}
 	}
 	c.Floor("lock.extent", 8)
+	checkLockRelease(c, "lock.release", all)
 
 	// ---------------- lock.entry
 	isHandlerShape := func(fn *ssa.Function) bool {
@@ -440,4 +441,80 @@ func describeAddr(v ssa.Value) string {
 		return "captured " + t.Name()
 	}
 	return v.Name()
+}
+
+// checkLockRelease: every Lock/RLock of a sync mutex is released on every path to a return of its function — by a
+// deferred Unlock registered before any return can be reached, or by an Unlock call on each path. A return that leaves
+// the mutex locked blocks the next request (or the next diagnostic) forever.
+func checkLockRelease(c *core.Ctx, rule string, funcs []*ssa.Function) {
+	n := 0
+	for _, fn := range funcs {
+		for _, b := range fn.Blocks {
+			for idx, in := range b.Instrs {
+				arg, name, ok := isMutexCall(in, "Lock", "RLock")
+				if !ok {
+					continue
+				}
+				if _, isDefer := in.(*ssa.Defer); isDefer {
+					continue
+				}
+				n++
+				want := map[string]string{"Lock": "Unlock", "RLock": "RUnlock"}[name]
+				sameMutex := func(v ssa.Value) bool {
+					return accessPath(v) == accessPath(arg) && accessPath(arg) != ""
+				}
+				releases := func(i2 ssa.Instruction) bool {
+					a2, _, ok := isMutexCall(i2, want)
+					return ok && (sameMutex(a2) || a2 == arg)
+				}
+				// walk forward from the Lock; a path ends at a release (call or defer); reaching a Return first is a leak
+				var leak ssa.Instruction
+				seen := map[*ssa.BasicBlock]bool{}
+				var walk func(blk *ssa.BasicBlock, from int)
+				walk = func(blk *ssa.BasicBlock, from int) {
+					for _, i2 := range blk.Instrs[from:] {
+						if releases(i2) {
+							return
+						}
+						if r, ok := i2.(*ssa.Return); ok {
+							if leak == nil {
+								leak = r
+							}
+							return
+						}
+						if p, ok := i2.(*ssa.Panic); ok {
+							_ = p
+							return
+						}
+					}
+					for _, s := range blk.Succs {
+						if !seen[s] {
+							seen[s] = true
+							walk(s, 0)
+						}
+					}
+				}
+				walk(b, idx+1)
+				// idiom: the deferred release is registered just before the Lock
+				if leak != nil {
+					for _, b2 := range fn.Blocks {
+						for _, i2 := range b2.Instrs {
+							if _, isDefer := i2.(*ssa.Defer); isDefer && releases(i2) && core.InstrDominates(i2, in) {
+								leak = nil
+							}
+						}
+					}
+				}
+				key := fmt.Sprintf("%s|%s(%s)", core.FnName(fn), name, accessPath(arg))
+				if leak == nil {
+					c.Discharge(rule, key, in.Pos(), "released (deferred or direct "+want+") before every return")
+				} else {
+					c.Report(rule, key, leak.Pos(), fmt.Sprintf("%s can return at %s with the mutex taken at %s still locked (no %s on that path): the next caller blocks forever", core.FnName(fn), c.Prog.Loc(leak.Pos()), c.Prog.Loc(in.Pos()), want))
+				}
+			}
+		}
+	}
+	if n == 0 {
+		c.MissingAnchor(rule, "no sync.Mutex Lock in the analysed functions")
+	}
 }
